@@ -59,3 +59,15 @@ def Pool.result (p : Pool) : Nat × List PBlk :=
   (p.rc, p.blocks.mergeSort (fun a b => decide (a.off ≤ b.off)))
 
 end Wrgl
+
+namespace Wrgl
+
+/-- A shared buffered error channel that is only drained after the goroutines have finished
+    (`Merger.errChan`, `Inserter.errChan`): each goroutine sends at most one error (`true` = it
+    fails). `none` = some sender blocks forever because the buffer is full. -/
+def sendAll (cap : Nat) : List Bool → Nat → Option Nat
+  | [], used => some used
+  | fails :: rest, used =>
+    if fails then (if used < cap then sendAll cap rest (used + 1) else none) else sendAll cap rest used
+
+end Wrgl
